@@ -30,9 +30,9 @@ type SimMQ struct {
 	All     []*SimStream          // every registration ever made (history)
 	// DupAttempts: keys of the registrations that were asked for while a registration of the same channel was open
 	DupAttempts []string
-	posMemo map[string]*msgpb.MsgPosition
-	ddlMemo map[string]msgstream.TsMsg
-	RegErr  func(vch string) bool
+	posMemo     map[string]*msgpb.MsgPosition
+	ddlMemo     map[string]msgstream.TsMsg
+	RegErr      func(vch string) bool
 	// Published, when set, returns the index of the first log entry of pch not yet
 	// published at this moment ("latest" for Pos == nil registrations); nil = 0.
 	Published func(pch string) int
